@@ -1021,19 +1021,14 @@ theorem insertInto_spine (S : Schema) (ins : List Node) :
 theorem insertAt_no_internal (S : Schema) (sl : Slice) (pos : Nat) (frag : List Node) :
     sl.insertAt S pos frag ≠ .error .internal := by
   intro h
-  unfold Slice.insertAt at h
-  split at h
-  · simp at h
-  · simp at h
-  · rename_i e he
-    simp at h; subst h
-    exact insertInto_no_internal S frag sl.content none sl.content _ 0 _ _ _ (by omega) he
+  exact insertInto_no_internal S frag sl.content none sl.content _ 0 _ _ _ (by omega) (insertAt_error h)
 
 /-- **insert_at keeps well-formedness**: the insertion point lies between the two spines -/
 theorem insertAt_wf (S : Schema) (sl ins : Slice) (pos : Nat) (frag : List Node)
     (hwf : sl.wf = true) (hp : (pos : Int) ≤ sl.size)
     (h : sl.insertAt S pos frag = .ok (some ins)) : ins.wf = true := by
-  unfold Slice.insertAt at h
+  rw [insertAt_of_le (insertAt_ok h).1] at h
+  unfold Slice.insertAtIn at h
   split at h
   · rename_i c hc
     simp at h; subst h
